@@ -14,6 +14,8 @@ lockstep with the real database of the current workload.
   crash <k>                               → `<pre|post|same|other> <digest>` (state found after a crash just
                                              before call k of the last op; k = length: after it;
                                              `same`: the op leaves the modelled state unchanged)
+  fault <k>                               → `<pre|post|other> <digest>` (durable state after call k of the last op
+                                             returned an error and the error path rolled back)
   apply                                   → `<digest> consistent=<0|1>` (the last op is committed)
 -/
 namespace AnySync.Driver.Store
@@ -127,6 +129,15 @@ def step (st : St) (line : String) : St × String :=
       let c := crashAt (Db.idle st.store) tr k
       let lab := if st.store = postOf st op ∧ c = st.store then "same"
         else if c = st.store then "pre" else if c = postOf st op then "post" else "other"
+      (st, s!"{lab} {digest c}")
+    | _, _ => (st, "bad-op")
+  | ["fault", k] =>
+    match k.toNat?, st.last with
+    | some k, some op =>
+      let tr := traceOf op
+      if k ≥ tr.length then (st, "bad-op") else
+      let c := (execFault (Db.idle st.store) tr k).committed
+      let lab := if c = st.store then "pre" else if c = postOf st op then "post" else "other"
       (st, s!"{lab} {digest c}")
     | _, _ => (st, "bad-op")
   | ["apply"] =>
